@@ -8,6 +8,6 @@ for pid in "$@"; do
     mkdir -p $out
     cp -r $d/* $out/ 2>/dev/null
     rm -f $out/test.log $out/demo $out/*.o
-    /verif/tools/confirm_seed.py $d $pid --tests --check > $out/confirm.json 2>&1
+    /verif/tools/confirm_seed.py $d $pid --tests $CHECKFLAG > $out/confirm.json 2>&1
   done
 done
